@@ -601,7 +601,14 @@ func (r *readerRun) run(stream []byte) (evs []Ev) {
 	if resume && cutOff < len(stream) {
 		// the transport delivers again only after the application has been told about the failure
 		// (until then it keeps failing): C05's last clause is about what happens AFTER a reported error
-		chunks = append(chunks, xport.Chunk{Data: stream[cutOff:], Gate: &r.healed})
+		// Half of the programs (by seed) get a ONE-SHOT fault instead: the transport fails exactly once and delivers the
+		// rest at once, whether or not anybody was told. A library that loses the one error (seeded/C05-M: the skip of an
+		// abandoned frame's remainder) then reads on; the specification is the same - the error must still follow.
+		gate := &r.healed
+		if p.Seed%2 == 1 {
+			gate = nil
+		}
+		chunks = append(chunks, xport.Chunk{Data: stream[cutOff:], Gate: gate})
 	}
 	sc := xport.New(chunks)
 	sc.EndErr = ferr
